@@ -9,7 +9,7 @@ from ..core import Checker, Rule, attr_calls, callee_is, calls_in, kwarg, resolv
 from ..grammar import schema
 from ..interp import Pins, find_nodes, unparse
 from ..kindflow import Collect, fmt_path, required_paths
-from .util import contributions, covers_program, enclosing_loop, enclosing_stmt, every_iteration_reaches, fmt, is_const, parent, returns_of, single_def
+from .util import contributions, covers_program, enum_members, enclosing_loop, enclosing_stmt, every_iteration_reaches, fmt, is_const, parent, returns_of, single_def
 
 P = ("C18", "C01")
 U = "ngo.utils.ast"
@@ -38,6 +38,13 @@ def r_predicates_cover(ck: Checker) -> None:
         extra = got - req
         ck.add(f"predicates({kind}) yields only on grammar paths", not extra, func, func.node, f"extra: {[fmt_path(p) for p in sorted(extra)][:3]}", "", nontrivial=False)
     ck.add("no collector call was left unresolved", not col.unresolved, func, func.node, f"unresolved: {col.unresolved[:3]}", "", nontrivial=False)
+    # the "all signs" constant the collectors default to
+    mod = ck.prg.module("utils.ast")
+    sg = mod.consts.get("SIGNS")
+    ck.need(sg is not None, "utils.ast.SIGNS defined")
+    members = {unparse(n) for n in ast.walk(sg) if isinstance(n, ast.Attribute) and isinstance(n.value, ast.Name) and n.value.id == "Sign"}  # type: ignore[arg-type]
+    ck.add("SIGNS lists every sign", members == set(enum_members("Sign")), "utils.ast:<module>", sg, f"SIGNS = `{unparse(sg)}`; clingo has {sorted(enum_members('Sign'))}",  # type: ignore[arg-type]
+           "the collectors filter on `lit.sign in signs`: with a sign missing, predicates that only occur under it (`not not p(X)`) are invisible to auto detection and to every pass")
     # symbol kinds: what the parser really puts into SymbolicAtom.symbol before unpooling
     lp = ck.func("utils.ast:literal_predicate")
     res = col.run(f"{U}:literal_predicate", "Literal", "SIGNS")
